@@ -318,3 +318,43 @@ def im8(ctx: Ctx):
     ctx.ob(rule, "<package>", f"module-level containers {sorted(n for _m, n in containers)}", not bad,
            "module-level container mutated: " + ", ".join(f"{r[2]} in {fi.qual}" for fi, _e, r in bad),
            sample=f"{len(containers)} container(s), none mutated")
+
+
+def im9(ctx: Ctx, backends=("py", "pyx")):
+    """The quoter / unquoter objects are module-level singletons shared by every URL and every thread: they must be
+    stateless after construction. No method other than __init__ stores to or mutates anything reachable from self, and
+    __init__ keeps only its arguments, constants, bit tables and package quoter instances - never a stateful helper
+    object (e.g. an incremental decoder) that later calls would share."""
+    model = ctx.model
+    rule = "IM9"
+    ctx.rule(rule, floor=4, what="shared quoter/unquoter instances carry no state across calls")
+    mods = [("_quoting_py", "py")] + ([("_quoting_c", "pyx")] if "pyx" in backends else [])
+    for mod, be in mods:
+        if be == "pyx":
+            model.load_pyx()
+        for cls in ("_Quoter", "_Unquoter"):
+            for name, fi in model.methods(mod, cls).items():
+                r = analyze(model, fi)
+                ctx.functions.add(fi.qual)
+                ctx.instance(rule)
+                problems = []
+                if name == "__init__":
+                    for e in r.by_kind("store_attr"):
+                        if e.obj != ("param", "self"):
+                            continue
+                        v = e.value
+                        ok = v[0] in ("param", "const") or (v[0] == "call" and v[1][0] == "global" and v[1][2] in ("_Quoter", "_Unquoter"))
+                        if not ok:
+                            problems.append(f"self.{e.attr} = {show(v)[:50]} (a helper object shared by all later calls)")
+                else:
+                    for e in r.by_kind("store_attr"):
+                        if root_of(e.obj) == ("param", "self"):
+                            problems.append(f"stores self.{e.attr}")
+                    for e in r.by_kind("mutate") + r.by_kind("store_sub"):
+                        recv = e.recv if e.kind == "mutate" else e.base
+                        if root_of(recv) == ("param", "self") or any(t[0] == "attr" and t[1] == ("param", "self") for t in walk(recv)):
+                            problems.append(f"mutates {show(recv)[:40]}")
+                ctx.ob(rule, fi.qual, "state of the shared instance", not problems,
+                       "a module-level quoter/unquoter keeps state between calls: " + "; ".join(sorted(set(problems))) +
+                       " - results would depend on earlier calls (and on other threads)", where(fi, fi.node),
+                       sample="only constructor arguments / tables / package quoters are kept; calls do not write to self")
